@@ -52,6 +52,7 @@ type Profile struct {
 	Fault      map[string]int // enabled fault kinds -> weight
 	SeqWeight  int
 	Quota      bool
+	SlowReads  bool   // some clients read responses slowly (response writes are seams)
 	CacheKind  string // external mode: noop | lru | lru-ttl | chaos
 	CacheSize  int
 	CacheTTL   time.Duration
@@ -131,6 +132,7 @@ func (w *World) Init(s *kernel.Sim) {
 	p.Mask = t.Chance(1, 2)
 	p.Mapper = t.Chance(1, 3)
 	p.Quota = t.Chance(1, 3)
+	p.SlowReads = t.Chance(1, 3)
 	p.MaxOps = t.Range(4, 28)
 	p.Conc = t.Range(1, 4)
 	p.MaxGet = []int64{1000, 1, 2, 3, 7, 10, 1 << 31, math.MaxInt64}[t.Intn(8)]
@@ -451,6 +453,9 @@ func (w *World) nextOp() *Op {
 }
 
 func (w *World) launch(op *Op) {
+	if w.prof.SlowReads && !w.auditing && op.Method == "GET" && op.ID%2 == 0 {
+		op.SlowWrite = true
+	}
 	w.active++
 	w.started++
 	w.opSeq++
